@@ -227,6 +227,12 @@ type sysRun struct {
 	announcedId   string // id of the task the latest Step announced (NextTask)
 	inRetry       bool
 
+	// exhaustive fault placement: the k-th faultable call of the scheduler (before quiescence) gets the planned fault
+	planned bool
+	plan    map[int]int // call number -> 1 error without effect, 2 error after effect, 3 failure of the hook's nested GetNext
+	callNo  int
+	kinds   []string // kind of every faultable call seen before quiescence
+
 	vmode bool
 	scrib bool
 	ended bool
@@ -628,6 +634,23 @@ func (s *sysRun) chooseFault(kind string) callGrant {
 	if !s.faultsOn {
 		return g
 	}
+	if s.planned {
+		switch kind {
+		case "getnext", "getbyid", "markdisp", "markdone", "start":
+			k := s.plan[s.callNo]
+			s.callNo++
+			s.kinds = append(s.kinds, kind)
+			switch {
+			case k == 3 && (kind == "markdisp" || kind == "start"):
+				g.hfault = true
+				s.stats["fault:hook-getnext"]++
+			case (k == 1 || k == 2) && kind != "start":
+				g.fault = k
+				s.stats["fault:"+kind]++
+			}
+		}
+		return g
+	}
 	switch kind {
 	case "getnext", "getbyid", "markdisp", "markdone":
 		if s.r.Intn(6) == 0 {
@@ -987,13 +1010,69 @@ func sysMain(args []string) {
 	volatile := fs.Bool("volatile", false, "second configuration: Scheduler over NewVolatileTaskRepo(CronStore)")
 	out := fs.String("out", "", "output .v")
 	statsOut := fs.String("stats", "", "stats json")
+	exhaustive := fs.Int("exhaustive", 0, "number of base scenarios; every placement of one fault (error-without-effect, error-after-effect, hook GetNext failure) over the scheduler's calls of each is run (ignores -n)")
+	pairs := fs.Bool("pairs", false, "with -exhaustive: also every placement of two faults")
 	_ = fs.Parse(args)
 	r := rand.New(rand.NewSource(*seed))
 	stats := map[string]int{}
 	var hashes, samples, cases []string
-	for k := 0; k < *n; k++ {
+	// the runs to make: (scenario seed, fault plan); a nil plan = random faults (or none)
+	type job struct {
+		seed int64
+		plan map[int]int
+	}
+	var jobs []job
+	if *exhaustive > 0 {
+		for b := 0; b < *exhaustive; b++ {
+			sd := *seed*1000 + int64(b)
+			base := newSysRun(rand.New(rand.NewSource(sd)), map[string]int{}, true)
+			base.planned, base.plan = true, map[int]int{}
+			base.run(*length)
+			kinds := base.kinds
+			stats["exhaustive:base-scenarios"]++
+			stats["exhaustive:faultable-calls"] += len(kinds)
+			opts := func(i int) []int {
+				switch kinds[i] {
+				case "start":
+					return []int{3}
+				case "markdisp":
+					return []int{1, 2, 3}
+				}
+				return []int{1, 2}
+			}
+			jobs = append(jobs, job{sd, map[int]int{}})
+			for i := range kinds {
+				for _, k := range opts(i) {
+					jobs = append(jobs, job{sd, map[int]int{i: k}})
+					stats["exhaustive:single-placements"]++
+				}
+			}
+			if *pairs {
+				// a first fault changes what follows: the second position ranges over a generous bound
+				for i := range kinds {
+					for _, k := range opts(i) {
+						for j := i + 1; j < len(kinds)+6; j++ {
+							for _, k2 := range []int{1, 2} {
+								jobs = append(jobs, job{sd, map[int]int{i: k, j: k2}})
+								stats["exhaustive:double-placements"]++
+							}
+						}
+					}
+				}
+			}
+		}
+	} else {
+		for k := 0; k < *n; k++ {
+			jobs = append(jobs, job{})
+		}
+	}
+	stats["cases"] = len(jobs)
+	for k, jb := range jobs {
 		var s *sysRun
-		if *volatile {
+		if jb.plan != nil {
+			s = newSysRun(rand.New(rand.NewSource(jb.seed)), stats, true)
+			s.planned, s.plan = true, jb.plan
+		} else if *volatile {
 			s = newVSysRun(r, stats, *scribble)
 		} else {
 			s = newSysRun(r, stats, *faults)
